@@ -45,6 +45,7 @@ var (
 	cur    int64 // scripted clock: every reading returns cur and advances it by tick
 	tick   int64
 	wedged bool
+	kind   string // "delta": the replicated state itself is handed to the library; "union": a wrapper is
 	ids    = event.VerifSetIDs()
 	names  = []string{"sub", "ban", "conn"}
 )
@@ -216,7 +217,8 @@ func step(w []string, _ string) string {
 		objs, links = map[string]*object{}, map[string]*mesh.VerifSender{}
 		cur, tick, wedged = 1, 0, false
 		crdt.Now = func() int64 { t := cur; cur += tick; return t }
-		return strings.Join(w, " ") + " impl=" + implKind() + "\x00ok"
+		kind = implKind()
+		return strings.Join(w, " ") + " impl=" + kind + "\x00ok"
 	}
 	if sw == nil || len(w) < arity[w[0]] {
 		return "bad-op"
@@ -340,6 +342,20 @@ func step(w []string, _ string) string {
 		case "drain":
 			l := link(w[1])
 			var out []string
+			if kind == "union" {
+				// the library's own deliver loop: pick, Encode, hand every message to the connection
+				for _, m := range l.Deliver() {
+					tag := "g"
+					if m.Broadcast {
+						tag = "b" + strconv.FormatUint(uint64(m.Src), 10)
+					}
+					st, err := event.DecodeState(m.Payload)
+					if err != nil {
+						panic(err)
+					}
+					out = append(out, tag+" "+times(st))
+				}
+			}
 			for i := 0; i < 64 && !l.Empty(); i++ {
 				out = append(out, pickOne(l))
 			}
